@@ -159,7 +159,8 @@ theorem fileWrite_log (os : Os) (fd off : Nat) (buf : Bytes) :
       (fileWrite os fd off buf).1.dirs = os.dirs ∧
       (∀ e ∈ seg, ∃ o l x, e = .pwrite fd o l x) ∧
       ((fileWrite os fd off buf).2 = true → NoFail seg) ∧
-      seg.length ≤ buf.length + 3 :=
-  fileWriteLoop_log os fd off buf 0
+      seg.length ≤ buf.length + 3 := by
+  rw [fileWrite_log_eq, fileWrite_fds_eq, fileWrite_dirs_eq, fileWrite_snd]
+  exact fileWriteLoop_log os fd off buf 0
 
 end AcqVerif.Storage
